@@ -80,10 +80,23 @@ func resolveLen(class string, c uint32) int {
 }
 
 type sessOpts struct {
+	Defer int // 0: the peer reads right after every write; 1: all writes first, then B reads everything, then A; 2: A first, then B
 	Mode  rtmpx.ReadMode
 	Cut   int // absolute offset in the A->B and B->A streams (post-handshake offsets are added by the caller)
 	Cut2  int
 	NoHS  bool
+}
+
+type expectation struct {
+	i       int
+	op      Op
+	dir     int
+	typ     uint8
+	sid, ts uint32
+	payload []byte
+	feat    string
+	chunk   uint32
+	wire    string
 }
 
 type sessResult struct {
@@ -132,6 +145,23 @@ func runSession1(ops []Op, o sessOpts, wantStates bool) (res sessResult) {
 	links := [2]*rtmpx.Link{p.AB, p.BA}
 	out := [2]uint32{128, 128} // announced chunk size per writer
 	ownS := [2]bool{}
+	var pending [2][]expectation
+	verify := func(r *rtmp.Protocol, e expectation) (string, string) {
+		got, err := r.ReadMessage()
+		ctx := func() string {
+			return fmt.Sprintf("session %v, op %d %v (writer chunk size %d, wire bytes of this op: %s), read mode %v cut %d, read policy %d", ops, e.i, e.op, e.chunk, e.wire, o.Mode, o.Cut, o.Defer)
+		}
+		if err != nil {
+			return "readback-error/" + e.feat, "peer ReadMessage failed: " + err.Error() + "; " + ctx()
+		}
+		if uint8(got.MessageType) != e.typ || got.Timestamp != uint64(e.ts) || !bytes.Equal(got.Payload, e.payload) {
+			return "readback-mismatch/" + e.feat, fmt.Sprintf("peer read type=%d ts=%d payload=%d bytes (equal=%v), written type=%d ts=%d payload=%d bytes; %s", got.MessageType, got.Timestamp, len(got.Payload), bytes.Equal(got.Payload, e.payload), e.typ, e.ts, len(e.payload), ctx())
+		}
+		if sid, ok := rtmpx.StreamID(got); ok && sid != e.sid {
+			return "readback-mismatch-stream-id/" + e.feat, fmt.Sprintf("peer read stream id %d, written %d; %s", sid, e.sid, ctx())
+		}
+		return "", ""
+	}
 	for i, op := range ops {
 		w, r := ends[op.Dir], ends[1-op.Dir]
 		var wantType uint8
@@ -208,26 +238,13 @@ func runSession1(ops []Op, o sessOpts, wantStates bool) (res sessResult) {
 			}
 			return strings.Join(f, "+")
 		}
-		got, err := r.ReadMessage()
-		ctx := func() string {
-			return fmt.Sprintf("session %v, op %d %v (writer chunk size %d, wire bytes of this op: %s), read mode %v cut %d", ops, i, op, out[op.Dir], hl.Hex(links[op.Dir].Data[before:]), o.Mode, o.Cut)
-		}
-		if err != nil {
-			res.Key, res.What = "readback-error/"+feat(), "peer ReadMessage failed: "+err.Error()+"; "+ctx()
+		exp := expectation{i: i, op: op, dir: op.Dir, typ: wantType, sid: wantSid, ts: wantTs, payload: wantPayload, feat: feat(),
+			chunk: out[op.Dir], wire: hl.Hex(links[op.Dir].Data[before:])}
+		if o.Defer != 0 {
+			pending[op.Dir] = append(pending[op.Dir], exp)
+		} else if k, w := verify(r, exp); k != "" {
+			res.Key, res.What = k, w
 			return
-		}
-		if uint8(got.MessageType) != wantType || got.Timestamp != uint64(wantTs) || !bytes.Equal(got.Payload, wantPayload) {
-			res.Key = "readback-mismatch/" + feat()
-			res.What = fmt.Sprintf("peer read type=%d ts=%d payload=%d bytes (equal=%v), written type=%d ts=%d payload=%d bytes; %s", got.MessageType, got.Timestamp, len(got.Payload), bytes.Equal(got.Payload, wantPayload), wantType, wantTs, len(wantPayload), ctx())
-			return
-		}
-		if sid, ok := rtmpx.StreamID(got); ok && sid != wantSid {
-			res.Key = "readback-mismatch-stream-id/" + feat()
-			res.What = fmt.Sprintf("peer read stream id %d, written %d; %s", sid, wantSid, ctx())
-			return
-		}
-		if links[op.Dir].RPos != len(links[op.Dir].Data) {
-			// bytes buffered inside the reader are fine; nothing to judge here
 		}
 		if op.K == "S" {
 			out[op.Dir] = op.N
@@ -235,6 +252,20 @@ func runSession1(ops []Op, o sessOpts, wantStates bool) (res sessResult) {
 		}
 		if wantStates {
 			res.States = append(res.States, rtmpx.ProtoState(ends[0])+"||"+rtmpx.ProtoState(ends[1]))
+		}
+	}
+	if o.Defer != 0 {
+		order := []int{0, 1}
+		if o.Defer == 2 {
+			order = []int{1, 0}
+		}
+		for _, d := range order {
+			for _, e := range pending[d] {
+				if k, w := verify(ends[1-d], e); k != "" {
+					res.Key, res.What = "deferred-reads/"+k, w
+					return
+				}
+			}
 		}
 	}
 	// no extra message: both directions fully consumed
@@ -327,7 +358,7 @@ type runner struct {
 
 func (r *runner) report(res sessResult, ops []Op, o sessOpts) {
 	if res.Key != "" {
-		r.c.Violation(res.Key, res.What, map[string]interface{}{"ops": ops, "mode": int(o.Mode), "cut": o.Cut, "cut2": o.Cut2})
+		r.c.Violation(res.Key, res.What, map[string]interface{}{"ops": ops, "mode": int(o.Mode), "cut": o.Cut, "cut2": o.Cut2, "defer": o.Defer})
 	}
 }
 
@@ -348,6 +379,18 @@ func (r *runner) one(ops []Op, oneByteMax int, cuts bool, cuts3 bool) {
 	c.Nontrivial(fmt.Sprint(ops))
 	if n := c.Count("evaluations"); n == 3 || n == 500 || n == 20000 {
 		c.Sample(map[string]interface{}{"session": fmt.Sprint(ops), "wire_bytes_AB": res.BytesAB - res.HSBytes, "wire_bytes_BA": res.BytesBA - res.HSBytes})
+	}
+	// the same session with every write done before any read (announcements cross the messages in flight)
+	if len(ops) >= 2 {
+		for _, pol := range []int{1, 2} {
+			c.Eval()
+			c.Add("traces_validated_against_impl", 1)
+			rd := runSession(ops, sessOpts{Mode: rtmpx.Whole, Defer: pol}, false)
+			if rd.Key != "" {
+				r.report(rd, ops, sessOpts{Defer: pol})
+				return
+			}
+		}
 	}
 	total := res.BytesAB + res.BytesBA - 2*res.HSBytes
 	if total <= oneByteMax {
@@ -530,11 +573,12 @@ func replay(c *hl.Ctx, raw json.RawMessage) {
 		Mode int  `json:"mode"`
 		Cut  int  `json:"cut"`
 		Cut2 int  `json:"cut2"`
+		Def  int  `json:"defer"`
 	}
 	if err := json.Unmarshal(raw, &cs); err != nil {
 		panic(err)
 	}
-	res := runSession(cs.Ops, sessOpts{Mode: rtmpx.ReadMode(cs.Mode), Cut: cs.Cut, Cut2: cs.Cut2}, false)
+	res := runSession(cs.Ops, sessOpts{Mode: rtmpx.ReadMode(cs.Mode), Cut: cs.Cut, Cut2: cs.Cut2, Defer: cs.Def}, false)
 	if res.Key != "" {
 		c.Violation(res.Key, res.What, cs)
 	}
